@@ -34,11 +34,12 @@ import (
 )
 
 type fileBlock struct {
-	rel     string
-	imports map[string]string
-	gostmt  string
-	points  [][3]string
-	require []string
+	rel      string
+	imports  map[string]string
+	optional map[string]bool
+	gostmt   string
+	points   [][3]string
+	require  []string
 
 	extract    []string // function names to extract (engine X)
 	extractOut string   // virtual file path relative to the verif root
@@ -73,11 +74,19 @@ func main() {
 		case "file":
 			cur = &fileBlock{rel: f[1], imports: map[string]string{}}
 			blocks = append(blocks, cur)
-		case "import":
+		case "import", "import?":
+			// import? redirects the import if the file has it (a file that does
+			// not import the package today may after a change)
 			if cur == nil || len(f) != 3 {
 				die("%s:%d: bad import directive", *conf, ln+1)
 			}
 			cur.imports[f[1]] = f[2]
+			if f[0] == "import?" {
+				if cur.optional == nil {
+					cur.optional = map[string]bool{}
+				}
+				cur.optional[f[1]] = true
+			}
 		case "gostmt":
 			cur.gostmt = f[1]
 		case "point":
@@ -188,7 +197,7 @@ func transform(filename string, text []byte, b *fileBlock) ([]byte, error) {
 		done[p] = true
 	}
 	for p := range b.imports {
-		if !done[p] {
+		if !done[p] && !b.optional[p] {
 			return nil, fmt.Errorf("import %q to redirect not found", p)
 		}
 	}
@@ -358,7 +367,6 @@ func rewriteGo(g *ast.GoStmt, fset *token.FileSet, n int) ast.Stmt {
 	blk.List = append(blk.List, spawn)
 	return blk
 }
-
 
 // ---------- engine X: function extraction onto the virtual runtime ----------
 
